@@ -850,12 +850,34 @@ func (st *pkgState) expand(fi *funcInfo, call *ast.CallExpr, sk sink) ([]ast.Stm
 		if xt == nil {
 			return decline("receiver type unknown")
 		}
+		// a method promoted from an embedded field: spell the path to the field out
+		if osel, ok := st.o(sel).(*ast.SelectorExpr); ok {
+			if selection := st.info.Selections[osel]; selection != nil && len(selection.Index()) > 1 {
+				t := xt
+				for _, idx := range selection.Index()[:len(selection.Index())-1] {
+					if pt, ok := t.Underlying().(*types.Pointer); ok {
+						t = pt.Elem()
+					}
+					stt, ok := t.Underlying().(*types.Struct)
+					if !ok || idx >= stt.NumFields() {
+						return decline("promoted method through a non-struct")
+					}
+					f := stt.Field(idx)
+					if !f.Exported() && f.Pkg() != st.pkg.Types {
+						return decline("promoted through an unexported field of another package")
+					}
+					rv = &ast.SelectorExpr{X: rv, Sel: ident(f.Name())}
+					t = f.Type()
+				}
+				xt = t
+			}
+		}
 		_, xIsPtr := xt.Underlying().(*types.Pointer)
 		switch {
 		case recvIsPtr && !xIsPtr:
-			rv = &ast.UnaryExpr{OpPos: pos, Op: token.AND, X: sel.X}
+			rv = &ast.UnaryExpr{OpPos: pos, Op: token.AND, X: rv}
 		case !recvIsPtr && xIsPtr:
-			rv = &ast.StarExpr{Star: pos, X: sel.X}
+			rv = &ast.StarExpr{Star: pos, X: rv}
 		}
 		var rid *ast.Ident
 		if len(cp.Recv.List[0].Names) == 1 {
